@@ -84,3 +84,24 @@ check('C13', 'model_checking',
       'sample (all index vectors), extract_rows, count, flatten and values_from_database is executed and compared (quick 9e4 executions over 958 states; thorough 1.9e6 over 12269).',
       'Tables bounded to 5 rows with dyadic values in five alphabets; randomness owned at numpy.random.randint / shuffle and DataFrame.sample(frac=1); order inside an individual after the (unstable) panel sort left free; frontiers at the depth bound are reported, not expanded.',
       'explicit-state BFS over operation histories on the real object, all random answers enumerated, against a naive reference table', 'DESIGN.md section 4, C13')
+check('C05', 'exploration',
+      'Every model of the family (logit, nested, nested with mu, cnl, cnlmu, user MEV through mev/logmev, ordered logit/probit, and each log version) is evaluated by the real engine on all nest structures for J <= 3 (thorough J <= 4), all parameter assignments from the grids, all 2^J-1 availability patterns and full utility grids, '
+      'in several expression forms. Every probability vector is checked for [0,1], zero-when-unavailable, sum one, equality with the textbook closed form from an independent reference (own G(y) differentiated by dual numbers), shift invariance, and log = ln(prob) (quick 8.7e5 vectors, thorough 3.0e7).',
+      'Continuous domains at grid points; CNL with at most two nests per alternative and reduced parameter assignments for the largest families; the ordered-probit main grid keeps z < 6 and the tail is checked for the unit interval only (engine known finding).',
+      'bounded exhaustive enumeration of nest structures x parameter grids x availability patterns x utility grids on the real engine vs closed forms', 'DESIGN.md section 4, C05')
+check('C06', 'exploration',
+      'Over the same structure sweep, pairs of model functions are evaluated by the real engine on identical rows and must agree: nested(mu_m=1) = logit, cnl with whole memberships = nested (also with mu), scale 1 = unscaled, legacy tuples = nest objects. The published nested-logit generating function is differentiated for real '
+      'by the engine gradient with V_i = beta_i + column: ln(dG/dV_i) - V_i must equal get_mev_for_nested[i] and the reference ln G_i, and G must equal the closed form, for every structure including alternatives outside every nest, with and without availabilities, in both nest syntaxes.',
+      'The engine gradient is trusted as the derivative (checked by C02); G is not pinned where an alone alternative is unavailable; derivatives w.r.t. unavailable alternatives are not compared.',
+      'bounded exhaustive enumeration of nest structures; paired-model equality and engine differentiation of the published generating function', 'DESIGN.md section 4, C06')
+check('C08', 'exploration',
+      'Exhaustive enumeration of a finite product space of synthetic raw estimation outcomes (K <= 3; negative-definite, rank-deficient and zero-row Hessians; four BHHH kinds; with and without null / initial likelihood, bootstrap sample and active bounds; three sample sizes) injected into the real RawResults / bioResults, '
+      'with all report switches, all ordered 1-3-model compilations under 2^5 flag combinations, an LR-test grid and real estimations with owned bootstrap resamples. Every cell of every tabular and textual view is compared with an exact-rational recomputation of the quantity its label names, separately for the classical, robust and bootstrap families (quick 1.6e6 cells).',
+      'Stub model object as injection seam (confirmed on real BIOGEME objects); cells with an undefined formula (zero variance, zero L0, LR ties) skipped and counted; p-values compared with absolute tolerance 1e-12.',
+      'bounded exhaustive enumeration of raw outcomes x report views vs exact-rational recomputation', 'DESIGN.md section 4, C08')
+check('C14', 'model_checking',
+      'Every history of up to 3 (thorough 4) output operations (write_pickle/html/latex/f12, dump_on_file, estimate with html/pickle, estimate(recycle), validate, default-parameter-file creation, create_backup, a second model) is executed on the real library from 4 pre-populated directories (empty, all names present, a numbering gap, directories / dangling links in the way) '
+      'and stepped against a reference directory model: earlier entries byte-identical, handed-out names new, created set as predicted, new files read back, recycling returns the last results written. Round trips are enumerated exhaustively: every results object of a 5-kind x 6-name-pool x bootstrap family bit-exactly through pickle; '
+      'every single deviation and pair of deviations of the parameter alphabet through dump_file / tomllib / read_file / BIOGEME; every accepted boolean spelling; every report writer parsed for a complete parameter listing; all 256 pre-states of the naming helper.',
+      'datetime.now() frozen; bootstrap resamples a fixed tape; __*.iter files excluded (C15); fewer than 100 files per name; validate limited to the first 2 / 3 positions; the BFS frontier at the depth bound is reported, not expanded.',
+      'explicit-state BFS over output-generation histories in pre-populated directories against a reference directory model; exhaustive round-trip enumeration', 'DESIGN.md section 4, C14')
